@@ -178,6 +178,19 @@ func runRecover(dir string, keys []string) (d sess.Dump, exit int, stderr string
 	return runChildDump(binPath("vchild"), append([]string{"recover", dir}, keys...)...)
 }
 
+// recoverImageWith recovers an image with non-default options for the recovering session (see vchild VCHILD_RECOVER_OPTS).
+func recoverImageWith(tr *ktrace.Trace, img ktrace.Image, dir string, keys []string, ropts string) (d sess.Dump, exit int, stderr string, err error) {
+	os.RemoveAll(dir)
+	if err = tr.Materialize(img, dir); err != nil {
+		return
+	}
+	childEnv = []string{"VCHILD_RECOVER_OPTS=" + ropts}
+	defer func() { childEnv = nil }()
+	return runRecover(dir, keys)
+}
+
+var childEnv []string
+
 func hashHex(b []byte) string {
 	h := sha256.Sum256(b)
 	return hex.EncodeToString(h[:8])
@@ -188,7 +201,7 @@ func runChildDump(bin string, args ...string) (d sess.Dump, exit int, stderr str
 	cmd := exec.Command(bin, args...)
 	var out, errb bytes.Buffer
 	cmd.Stdout, cmd.Stderr = &out, &errb
-	cmd.Env = append(os.Environ(), "VERIF_MARKERS=")
+	cmd.Env = append(append(os.Environ(), "VERIF_MARKERS="), childEnv...)
 	done := make(chan error, 1)
 	if err = cmd.Start(); err != nil {
 		return
